@@ -40,6 +40,12 @@ CLAIMS = {
          "alignment / size of the storage for every payload type in the zoo (int, over-aligned 64-byte struct), and the name-to-kind table. Does not "
          "decide bytewise faithfulness of copying non-trivially-copyable payloads.",
          "argument-flow + constructor-initialiser + record-layout rules over clang AST facts (static analysis)"),
+ "C08": ("Decides that writer and reader of every save/load pair agree on every path (widths, flag polarity, mirrored sub-calls into the same sub-objects, "
+         "destination field), that every sub-object is visited on every path, that the bits save() can write along any path of the call tree fit "
+         "SERIAL_BITS for every machine of the zoo (and bytes = ceil(bits/8), stream starts from a cleared buffer), const-ness / empty write set of save, "
+         "that no call after the loader may rewrite the loaded resumable marks, and the load commit sequence. Equality of configurations as values "
+         "follows from these given C01-C03 and is not separately computed.",
+         "writer/reader mirror (per-path stream-token isomorphism) + call-tree bit budget + effect ordering over clang AST facts (static analysis)"),
  "C09": ("Decides what is recorded and when (approved arm only; published on every exit of a step; cleared on deactivation/reset/load/replay), that the "
          "change predicate compares the whole pending configuration, who may write the pin table and that it is read under a bound, and that replay reaches "
          "no guard, records exactly the replayed list and commits through the ordinary routine. Does not decide that replay lands in the same configuration "
